@@ -299,9 +299,52 @@ def json_type_table(ck: Check) -> None:
     ck.compare_streams("JSONSchemaMaker.json_type (standard, extended) vs Schema.jsonType/jsonTypeExt", inputs, impl, model)
 
 
+def shared_sentences(ck: Check, n: int) -> None:
+    """Two 01 records of one copybook share an entry verbatim (the same level, name and clauses); only ONE of them redefines it.  The
+    schema of each record describes that record only: it is the schema the record gets when it is parsed on its own -- whichever
+    record comes first -- and it loads."""
+    import io
+
+    from stingray.cobol_parser import schema_iter
+    from stingray.schema_instance import SchemaMaker
+
+    rng = ck.rng
+    for _ in range(n):
+        w = rng.randint(2, 20)
+        shared = f"           05 REC-BODY PIC X({w})."
+        typ = f"           05 REC-TYPE PIC {rng.choice(['X', 'XX', '9'])}."
+        plain = f"       01  HEADER-REC.\n{typ}\n{shared}\n           05 H-TAIL PIC 9({rng.randint(1, 4)}).\n"
+        red = rng.choice([f"           05 REC-NUM REDEFINES REC-BODY PIC 9({w}).",
+                          f"           05 REC-PARTS REDEFINES REC-BODY.\n               10 P-A PIC X.\n               10 P-B PIC X({w - 1})."])
+        redefd = f"       01  DETAIL-REC.\n{typ}\n{shared}\n{red}\n"
+        try:
+            alone = {d["title"]: d for text in (plain, redefd) for d in schema_iter(io.StringIO(text))}
+        except BaseException as ex:  # noqa: BLE001
+            ck.fail("schema-build", f"a record parsed on its own raises {type(ex).__name__}", {"copybook": plain + redefd})
+            continue
+        for label, text in (("plain record first", plain + redefd), ("redefined record first", redefd + plain)):
+            ck.case(("shared-sentence", text), feature="records-sharing-an-entry-verbatim")
+            ck.oracle_evaluations += 1
+            inp = {"copybook": text}
+            try:
+                both = {d["title"]: d for d in schema_iter(io.StringIO(text))}
+                for d in both.values():
+                    SchemaMaker.from_json(d)
+            except BaseException as ex:  # noqa: BLE001
+                ck.fail("schema-build", f"two records sharing an entry verbatim ({label}): {type(ex).__name__}: {str(ex)[:80]}", inp)
+                continue
+            for title, d in alone.items():
+                if both.get(title) != d:
+                    body = (both.get(title) or {}).get("properties", {}).get("REC-BODY")
+                    ck.fail("schema-depends-on-sibling-record", f"{label}: the schema of {title} differs from the one it gets on its own "
+                                                                f"(REC-BODY is {str(body)[:120]})", inp)
+                    break
+
+
 def explore(ck: Check, n: int) -> None:
     edited_pictures(ck)
     lowercase_numeric(ck)
+    shared_sentences(ck, max(10, n // 10))
     rng = ck.rng
     json_type_table(ck)
     for i in range(n):
